@@ -249,7 +249,8 @@ pub fn gen_cloneop(rng: &mut Rng) -> Op {
 pub fn gen_conv(rng: &mut Rng) -> Op {
     let (a, d) = (slot(rng), slot(rng));
     let t = if rng.chance(1, 2) { "u" } else { "i" };
-    match rng.below(8) {
+    match rng.below(9) {
+        8 => Op::new(&format!("{}.asf", t)).a(a).form(rng.below(4)),
         0 | 1 => Op::new(&format!("{}.str", t)).a(a).dst(d).n(rng.below(35) as i64).form(rng.below(3)),
         2 | 3 => Op::new(&format!("{}.bytes", t)).a(a).dst(d).form(rng.below(2)),
         4 => Op::new("u.chunks").a(a).dst(d).n(rng.below(200) as i64),
